@@ -581,7 +581,7 @@ func (e *Extractor) extractSuffixes(re *syntax.Regexp, depth int) *Seq {
 	case syntax.OpLiteral:
 		// Case-insensitive literal: expand case-folding variants
 		if re.Flags&syntax.FoldCase != 0 {
-			return e.expandCaseFoldLiteral(re.Rune)
+			return e.expandCaseFoldSuffix(re.Rune)
 		}
 		// Direct literal
 		bytes := runeSliceToBytes(re.Rune)
@@ -634,8 +634,10 @@ func (e *Extractor) extractSuffixes(re *syntax.Regexp, depth int) *Seq {
 				continue
 			}
 
-			// Can only extend with literal sub-expressions
-			if sub.Op != syntax.OpLiteral {
+			// Can only extend with literal sub-expressions. A case-insensitive
+			// literal stands for all its case variants, not for the bytes of
+			// its stored runes, so it ends the extension as well.
+			if sub.Op != syntax.OpLiteral || sub.Flags&syntax.FoldCase != 0 {
 				// Non-literal encountered: mark all suffixes as incomplete and stop
 				lits := make([]Literal, suffixes.Len())
 				for j := 0; j < suffixes.Len(); j++ {
@@ -885,6 +887,25 @@ func (e *Extractor) expandCaseFoldLiteral(runes []rune) *Seq {
 	result.Dedup()
 	result.truncateTo(e.config.MaxLiterals)
 	return result
+}
+
+// expandCaseFoldSuffix is expandCaseFoldLiteral for suffix extraction: when the
+// variants have to be trimmed, the END of the literal is kept (every match
+// ends with one of the results), not its beginning.
+func (e *Extractor) expandCaseFoldSuffix(runes []rune) *Seq {
+	reversed := make([]rune, len(runes))
+	for i, r := range runes {
+		reversed[len(runes)-1-i] = r
+	}
+	seq := e.expandCaseFoldLiteral(reversed)
+	for i := range seq.literals {
+		rs := []rune(string(seq.literals[i].Bytes))
+		for a, b := 0, len(rs)-1; a < b; a, b = a+1, b-1 {
+			rs[a], rs[b] = rs[b], rs[a]
+		}
+		seq.literals[i].Bytes = []byte(string(rs))
+	}
+	return seq
 }
 
 // generateCaseFoldVariants generates cross-product of fold sets up to prefixLen runes.
